@@ -58,6 +58,15 @@ package dns
 //@   ensures rng: ret1 == nil && off <= len(msg) ==> ret0 <= len(msg)
 //@   loop * invariant old(off) <= off && off <= len(msg)
 //@   loop 1 invariant rangeindex >= 0 ==> lastlength >= 1 && off + 2 + lastlength <= len(msg)
+// the type bit map takes exactly the room typeBitMapLen (spec bml, verif_contracts_len.go) counts for it: pack and
+// len agree window by window (an out-of-order list, which len skips over, is refused by pack)
+//@   ensures exact: ret1 == nil && len(bitmap) > 0 ==> ret0 - off == bml(bitmap, 0, 0, 0, 0) [C08 C01]
+//@   assert at "if window > lastwindow && lastlength != 0" wl: window == bmlw(t) && length == bmln(t) [C08 C01]
+//@   ghost lw0 at "window := t / 256" lastwindow
+//@   ghost ll0 at "window := t / 256" lastlength
+//@   ghost o0 at "window := t / 256" off
+//@   assert after "lastwindow, lastlength = window, length" unfold: bml(bitmap, rangeindex + 1, lw0, ll0, o0 - old(off)) == bml(bitmap, rangeindex + 2, lastwindow, lastlength, off - old(off)) [C08 C01]
+//@   loop 1 invariant fold: bml(bitmap, rangeindex + 1, lastwindow, lastlength, off - old(off)) == bml(bitmap, 0, 0, 0, 0) && -1 <= rangeindex && rangeindex < len(bitmap) [C08 C01]
 //@   writes msg
 //@ func packDataOpt [C01 C08 C16]
 //@   opt no-safety
